@@ -17,6 +17,8 @@ PUBLIC API
     string_path_ok(tree) -> bool                    lookup_casstype can parse cass_name(tree) (see C28 note inside)
     codec_cases(max_depth, ...) -> hypothesis strategy of {"tree","value","pv","style","via"} cases
     label_case(ctx, tree, value, pv) -> set of feature labels (also reported through ctx.label)
+    spelling_chunks() / spelling_cases(leaf) / spelling_build(case)   alternate python spellings of date, time and
+                                  timestamp values (datetime for a date column incl. pre-epoch non-midnight, strings, ...)
     sized_element(etype, size) / vsb_chunks() / vsb_cases(etype) / vsb_build(case)   vectors of variable-width elements
                                   whose encoding has an exact size (unsigned-vint size prefix boundaries)
 """
@@ -224,13 +226,75 @@ def string_path_ok(tree):
     return all(string_path_ok(c) for c in V.children(tree))
 
 
-def codec_cases(max_depth=3, nulls=True, short_tuples=True, short_udts=False, styles=(0, 0, 1, 2, 3), vias=("direct", "direct", "string")):
+def codec_cases(max_depth=3, nulls=True, short_tuples=True, short_udts=False, styles=(0, 0, 1, 2, 3, 4), vias=("direct", "direct", "string")):
     def mk(tv, pv, style, via):
         if via == "string" and not string_path_ok(tv[0]):
             via = "direct"
         return {"tree": tv[0], "value": tv[1], "pv": pv, "style": style, "via": via}
     return st.builds(mk, V.typed_values(max_depth, nulls=nulls, short_tuples=short_tuples, short_udts=short_udts),
                      V.protocol_versions(), st.sampled_from(list(styles)), st.sampled_from(list(vias)))
+
+
+# ----------------------------------------------------------------------------------------------------------------
+# alternate input spellings of date / time / timestamp values, enumerated (values given as *python objects*)
+# ----------------------------------------------------------------------------------------------------------------
+
+SPELL_DAYS = (V.MIN_PYDATE_DAYS, V.MIN_PYDATE_DAYS + 1, -141428, -141427, -25567, -11017, -366, -365, -31, -2, -1,
+              0, 1, 2, 59, 365, 11016, 16741, 24855, 47482, V.MAX_PYDATE_DAYS - 1, V.MAX_PYDATE_DAYS)
+SPELL_TODS_US = (0, 1, 1000000, 43200000000, 86399999999)
+SPELL_EMBEDS = ("bare", "list", "set", "map-key", "tuple")
+
+
+def spelling_chunks():
+    return ["date", "time", "timestamp"]
+
+
+def spelling_cases(leaf):
+    """plain-data cases {"leaf","n","form","tod_us","embed","pv"}; n is the tagged value (days / nanos / ms)"""
+    if leaf == "date":
+        for d in SPELL_DAYS:
+            for i, emb in enumerate(SPELL_EMBEDS):
+                for tod in SPELL_TODS_US:
+                    yield {"leaf": leaf, "n": d, "form": "datetime", "tod_us": tod, "embed": emb, "pv": (2, 4)[(i + d) % 2]}
+                for form in ("string", "date", "Date"):
+                    yield {"leaf": leaf, "n": d, "form": form, "tod_us": 0, "embed": emb, "pv": (2, 4)[(i + d) % 2]}
+    elif leaf == "time":
+        for n in (0, 1, 999, 1000, 10 ** 9 - 1, 10 ** 9, 3661 * 10 ** 9 + 5, 43200 * 10 ** 9, 86399999999000, 86399999999999):
+            for i, emb in enumerate(SPELL_EMBEDS):
+                for form in ("string", "int", "Time") + (("time",) if n % 1000 == 0 else ()):
+                    yield {"leaf": leaf, "n": n, "form": form, "tod_us": 0, "embed": emb, "pv": (2, 4)[i % 2]}
+    else:
+        for d in SPELL_DAYS:
+            for i, emb in enumerate(SPELL_EMBEDS):
+                for form in ("date", "float", "int", "datetime", "aware"):
+                    yield {"leaf": leaf, "n": d * 86400000, "form": form, "tod_us": 0, "embed": emb, "pv": (2, 4)[(i + d) % 2]}
+                for form in (("float", "datetime", "aware") if d * 86400000 - 1 >= V.MIN_TIMESTAMP_MS else ()):
+                    yield {"leaf": leaf, "n": d * 86400000 - 1, "form": form, "tod_us": 0, "embed": emb, "pv": 4}
+
+
+def spelling_build(case):
+    """-> (tree, tagged value, python object to hand to the driver)"""
+    import datetime
+    leaf, n, form, emb = case["leaf"], case["n"], case["form"], case["embed"]
+    if leaf == "date":
+        obj = {"datetime": lambda: V.date_as_datetime(n, case["tod_us"]), "string": lambda: V.date_as_string(n),
+               "date": lambda: V.date_as_datetime(n, 0).date(), "Date": lambda: util.Date(n)}[form]()
+    elif leaf == "time":
+        obj = {"string": lambda: V.time_as_string(n), "int": lambda: n, "Time": lambda: util.Time(n),
+               "time": lambda: V._pytime(n)}[form]()
+    else:
+        obj = {"date": lambda: V.pydatetime(n).date(), "float": lambda: float(n), "int": lambda: n,
+               "datetime": lambda: V.pydatetime(n), "aware": lambda: V.aware_datetime(n)}[form]()
+    S = V.T(leaf)
+    if emb == "bare":
+        return S, n, obj
+    if emb == "list":
+        return V.t_list(S), [n], [obj]
+    if emb == "set":
+        return V.t_set(S), [n], {obj}
+    if emb == "map-key":
+        return V.t_map(S, V.T("int")), [[n, 1]], {obj: 1}
+    return V.t_tuple([V.T("int"), S]), [1, n], (1, obj)
 
 
 def label_case(ctx, tree, value, pv):
